@@ -480,7 +480,10 @@ def run_conc(fn, values, params=None, seed=0):
         res['status'] = 'assumption_failed'
         res['error'] = str(e)
     except Exception as e:
-        res['status'] = 'exception'
+        tb = traceback.extract_tb(e.__traceback__)
+        in_repo = bool(tb) and '/mpyc/' in tb[-1].filename and '/verif/' not in tb[-1].filename
+        # only an exception raised by the code under test counts as a reproduced failure; anything else is a harness error
+        res['status'] = 'exception' if in_repo else 'harness_error'
         res['error'] = f'{type(e).__name__}: {e}\n{traceback.format_exc()[-2500:]}'
     res['failures'] = list(env.conc_failures)
     res['observed'] = [(l, v if isinstance(v, (int, str, type(None))) else repr(v)) for l, v in env.observed]
